@@ -59,7 +59,7 @@ type Task struct {
 	kill    bool
 	killMsg string
 	perm    bool // teardown task: never killed, never waits
-	delay   int // not runnable before this step
+	delay   int  // not runnable before this step
 
 	// Progress is bumped by the harness whenever the task completes an
 	// operation; the stall detector looks at it.
@@ -93,6 +93,7 @@ type Config struct {
 	TimeJump    time.Duration // maximum jump of such a step
 	Schedule    []int         // recorded task ids (replay); consumed first
 	UnlockYield bool          // also yield after unlocking
+	Fine        int           // statement-level scheduling points: 0 none, 1 protocol files (Fine), 2 whole protocol packages (Fine and FineAll)
 }
 
 // Sim is one simulation run.
@@ -112,16 +113,16 @@ type Sim struct {
 	mapRNG   *rand.Rand
 	diskRNG  *rand.Rand
 
-	steps     int
-	Trace     []Step
-	Choices   []int
-	nChoices  int // number of steps with more than one runnable task
-	last      *Task
-	prio      map[int]int
-	pctPoints map[int]bool
-	drain     bool
-	start     time.Time
-	lastProg  int
+	steps      int
+	Trace      []Step
+	Choices    []int
+	nChoices   int // number of steps with more than one runnable task
+	last       *Task
+	prio       map[int]int
+	pctPoints  map[int]bool
+	drain      bool
+	start      time.Time
+	lastProg   int
 	lastProgAt time.Time
 
 	// outcome
@@ -131,8 +132,10 @@ type Sim struct {
 	PanicVal     any
 	PanicStack   string
 	PanicTask    string
-	NativeRanges int // map ranges that could not be ordered canonically
-	TimePassed   int // number of "let time pass" steps taken
+	NativeRanges int         // map ranges that could not be ordered canonically
+	FineYields   int         // statement-level scheduling points taken
+	ptrIDs       map[any]int // registration order of pointer map keys (NoteKey)
+	TimePassed   int         // number of "let time pass" steps taken
 
 	wallOffset atomic.Int64 // nanoseconds added to the bubble clock by simtime.Now
 
@@ -183,6 +186,9 @@ func New(cfg Config) *Sim {
 			d = 1
 		}
 		est := 400
+		if cfg.Fine > 0 {
+			est = 1500 * cfg.Fine * cfg.Fine
+		}
 		for i := 0; i < d-1; i++ {
 			s.pctPoints[s.schedRNG.IntN(est)] = true
 		}
@@ -400,6 +406,50 @@ func Yield(site string) {
 		return
 	}
 	s.Park(site, nil, nil)
+}
+
+// Fine is a statement-level scheduling point. The instrumenter inserts it
+// before every statement of the protocol packages; it only parks in runs that
+// enable Config.Fine, so that critical sections whose atomicity rests on a
+// lock (and not on the absence of a blocking call) are explored at statement
+// granularity in a fraction of the runs and cost nothing in the others.
+func Fine(site string) {
+	s := active.Load()
+	if s == nil || s.cfg.Fine < 1 {
+		return
+	}
+	s.FineYields++
+	s.Park(site, nil, nil)
+}
+
+// FineAll is Fine for the files that hold no synchronisation of their own (the
+// bulk of the statements): only runs with Config.Fine >= 2 park here.
+func FineAll(site string) {
+	s := active.Load()
+	if s == nil || s.cfg.Fine < 2 {
+		return
+	}
+	s.FineYields++
+	s.Park(site, nil, nil)
+}
+
+// NoteKey registers a pointer that is being inserted as a map key. MapRange
+// orders registered pointer keys by registration order (which is a function of
+// the schedule) before permuting them, so that ranging over a pointer-keyed
+// map is seeded like any other map range.
+func NoteKey[K comparable](k K) {
+	s := active.Load()
+	if s == nil {
+		return
+	}
+	s.mu.Lock()
+	if s.ptrIDs == nil {
+		s.ptrIDs = map[any]int{}
+	}
+	if _, ok := s.ptrIDs[any(k)]; !ok {
+		s.ptrIDs[any(k)] = len(s.ptrIDs)
+	}
+	s.mu.Unlock()
 }
 
 // Park parks the calling task until the scheduler wakes it. cond, if not nil,
